@@ -82,7 +82,7 @@ def main():
         try:
             m, i = runner.run_chunked(scripts, chunk=getattr(mod, "CHUNK", 400))
             for sid, lines in scripts:
-                evaluations += 1
+                evaluations += getattr(mod, "case_count", lambda ls: 1)(lines)
                 mt, it = m.get(sid), i.get(sid)
                 if mt is None or it is None:
                     diverge.append((sid, lines, (0, str(mt)[:80], str(it)[:80])))
@@ -93,12 +93,15 @@ def main():
                 for o in mod.oracle(lines, it):
                     oracle_fail.append((sid, lines, o[0], o[1]))
                 k = mod.nontrivial(lines, it)
-                if k is not None:
+                if isinstance(k, (set, list, frozenset)):
+                    nontrivial.update(k)
+                    k = True if k else None
+                elif k is not None:
                     nontrivial.add(k)
                 for kk in mod.classify(lines, it):
                     dist[kk] = dist.get(kk, 0) + 1
                 if len(samples) < 3 and k is not None:
-                    samples.append({"script": lines[:40], "impl_trace": it[:40]})
+                    samples.append({"script": [x[:300] for x in lines[:40]], "impl_trace": [x[:300] for x in it[:40]]})
         except Exception as e:  # noqa
             corr_broken = "run: %s" % e
             say(traceback.format_exc()[-3000:])
